@@ -78,6 +78,14 @@ CLAIMED = {
             "and for plain-JSON schemas that the value is the example itself with no blank outside strings.",
             "Bytes are parsed into the abstract value by the harness (encoding/json token stream, order and numeral spelling kept) - TLC checks "
             "well-formedness independently on the raw bytes; exhaustive only over the enumerated domains.", "3/C15"),
+    "C16": ("TLA+ requirement Ast!RootAST (one node per example value, token kind, literal text, schema type, rules as written with nested "
+            "items, notes, generated rules of shortcuts); TLC enumerates schemas with their expected trees; structural replay of GetAST()",
+            "For every schema of the rule families and the special shapes (notes on every node kind, named and inline enums, allOf, key "
+            "shortcuts, or rule-sets with nested enum, references with one/several names, nested and empty containers, escaped keys, "
+            "non-canonical numerals in rule values, false-valued rules) the tree returned by GetAST() must equal the tree TLC computed, "
+            "field by field, rule by rule, in order.",
+            "Token kind of a quoted user-type name inside a rule (reference vs string) is left open by the statement and accepted either way; "
+            "exhaustive only over the enumerated schemas.", "3/C16"),
 }
 
 PENDING_REASON = "check under construction in this session - not claimed yet (no technique switch intended; see DESIGN.md section 3)"
